@@ -463,11 +463,7 @@ fn oracle(c: &HCase, o: &ImplOut, rep: Option<&mut Report>) -> Option<(String, S
                 ));
             }
         }
-        for w in closed.windows(2) {
-            if !(w[0].0 / w[0].1 as f64 <= w[1].0 / w[1].1 as f64) {
-                return Some(("histogram:sam:order".into(), "reported values are not ascending".into()));
-            }
-        }
+        // (the order of the rows is fixed by the comparison with the ascending `want` above)
         // re-aggregation
         let exact = closed.iter().all(|(t, k)| {
             let v = t / *k as f64;
@@ -488,9 +484,10 @@ fn oracle(c: &HCase, o: &ImplOut, rep: Option<&mut Report>) -> Option<(String, S
                 return strict(format!("re-aggregation changed the number of observations from {n1} to {n2}"));
             }
             let val = |r: &(f64, u64)| r.0 / r.1 as f64;
+            // total/occurrences recovers a row's value only to one ulp, so ascending is judged to one ulp
             for w in reagg.windows(2) {
-                if !(val(&w[0]) < val(&w[1])) {
-                    return strict("re-aggregated values are not strictly ascending".into());
+                if !(val(&w[0]) < val(&w[1]) || within_one_ulp(val(&w[0]), val(&w[1]))) {
+                    return strict("re-aggregated values are not ascending".into());
                 }
             }
             let (mut i, mut j) = (0usize, 0usize);
